@@ -43,6 +43,7 @@ use vls_persist::kvv::{JsonFormat, KVVPersister, KVVStore, KVV};
 pub const INITIAL_COMMITMENT_NUMBER: u64 = (1 << 48) - 1;
 
 pub type MemPersister = KVVPersister<MemoryKVVStore, JsonFormat>;
+pub type CloudPersister = KVVPersister<vls_persist::kvv::cloud::CloudKVVStore<MemoryKVVStore>, JsonFormat>;
 
 /// Result of one request to the signer: a panic is neither acceptance nor refusal.
 #[derive(Debug)]
@@ -544,6 +545,9 @@ pub struct World {
     pub secp: Secp256k1<All>,
     pub node: Arc<Node>,
     pub store: Arc<MemPersister>,
+    /// cloud-staged mode: the node's persister is this transactional store (enter / prepare /
+    /// commit envelope around every request, as vlsd does); `store` is then unused
+    pub cloud: Option<Arc<CloudPersister>>,
     pub clock: Arc<ManualClock>,
     pub vfactory: Arc<dyn ValidatorFactory>,
     pub chans: Vec<Chan>,
@@ -585,7 +589,46 @@ impl World {
         node.add_allowlist(&[]).expect("allowlist");
         store.new_node(&node.get_id(), &config, &*node.get_state()).expect("new_node");
         store.new_tracker(&node.get_id(), &node.get_tracker()).expect("new_tracker");
-        World { cfg, secp: Secp256k1::new(), node, store, clock, vfactory, chans: vec![], restarts: 0 }
+        World { cfg, secp: Secp256k1::new(), node, store, cloud: None, clock, vfactory, chans: vec![], restarts: 0 }
+    }
+
+    /// A world whose node persists through CloudKVVStore<MemoryKVVStore>.
+    pub fn new_cloud(cfg: WorldCfg, vfactory: Arc<dyn ValidatorFactory>) -> World {
+        let cloud: Arc<CloudPersister> = Arc::new(KVVPersister(vls_persist::kvv::cloud::CloudKVVStore::new(MemoryKVVStore::new(SIGNER_ID)), JsonFormat));
+        let store: Arc<MemPersister> = Arc::new(KVVPersister(MemoryKVVStore::new(SIGNER_ID), JsonFormat));
+        let clock = Arc::new(ManualClock::new(Duration::from_secs(cfg.now_secs)));
+        let services = NodeServices {
+            validator_factory: vfactory.clone(),
+            starting_time_factory: FixedStartingTimeFactory::new(1, 1),
+            persister: cloud.clone(),
+            clock: clock.clone(),
+            trusted_oracle_pubkeys: vec![],
+        };
+        let mut config = NodeConfig::new(cfg.network);
+        config.key_derivation_style = cfg.style;
+        cloud.enter().expect("enter");
+        let node = Arc::new(Node::new(config, &cfg.seed, vec![], services));
+        node.add_allowlist(&[]).expect("allowlist");
+        cloud.new_node(&node.get_id(), &config, &*node.get_state()).expect("new_node");
+        cloud.new_tracker(&node.get_id(), &node.get_tracker()).expect("new_tracker");
+        let _ = cloud.prepare();
+        cloud.commit().expect("commit");
+        World { cfg, secp: Secp256k1::new(), node, store, cloud: Some(cloud), clock, vfactory, chans: vec![], restarts: 0 }
+    }
+
+    /// Run one request inside the persister's transaction envelope (no-op envelope for the
+    /// plain store).  Returns the result and, in cloud mode, the mutations reported by prepare().
+    pub fn txn<R>(&self, f: impl FnOnce() -> R) -> (R, Option<lightning_signer::persist::Mutations>) {
+        match &self.cloud {
+            None => (f(), None),
+            Some(c) => {
+                c.enter().expect("enter");
+                let r = f();
+                let muts = c.prepare();
+                c.commit().expect("commit");
+                (r, Some(muts))
+            }
+        }
     }
 
     pub fn channel_id(spec: &ChanSpec) -> ChannelId {
@@ -617,7 +660,7 @@ impl World {
     pub fn new_stub(&mut self, spec: &ChanSpec) -> Out<usize> {
         let node = self.node.clone();
         let pid = peer_id(spec.peer);
-        let r = call(|| node.new_channel(spec.dbid, &pid, &node).map(|(id, _)| id));
+        let (r, _) = self.txn(|| call(|| node.new_channel(spec.dbid, &pid, &node).map(|(id, _)| id)));
         match r {
             Out::Ok(id0) => {
                 let (setup, cp) = self.make_setup(spec);
@@ -649,7 +692,7 @@ impl World {
         let node = self.node.clone();
         let id0 = self.chans[ci].id0.clone();
         let setup = self.chans[ci].setup.clone();
-        let r = call(|| node.setup_channel(id0.clone(), None, setup.clone(), &bitcoin::bip32::DerivationPath::master()).map(|_| ()));
+        let (r, _) = self.txn(|| call(|| node.setup_channel(id0.clone(), None, setup.clone(), &bitcoin::bip32::DerivationPath::master()).map(|_| ())));
         if r.is_ok() {
             self.chans[ci].is_ready = true;
             // commitment seed may be re-derived at setup: refresh ghost knowledge
@@ -675,12 +718,16 @@ impl World {
     pub fn with_chan<T>(&self, ci: usize, f: impl FnOnce(&mut Channel) -> Result<T, Status>) -> Out<T> {
         let node = self.node.clone();
         let id0 = self.chans[ci].id0.clone();
-        call(move || node.with_channel(&id0, f))
+        self.txn(move || call(move || node.with_channel(&id0, f))).0
     }
 
     /// Dump of the persistent store (key -> (version, value)), ordered.
     pub fn store_dump(&self) -> Vec<(String, u64, Vec<u8>)> {
-        self.store.0.get_prefix("").unwrap().map(|k| { let (k, (v, val)) = k.into_inner(); (k, v, val) }).collect()
+        match &self.cloud {
+            None => self.store.0.get_prefix("").unwrap().map(|k| { let (k, (v, val)) = k.into_inner(); (k, v, val) }).collect(),
+            // CloudKVVStore::get_prefix reads the committed local store
+            Some(c) => c.0.get_prefix("").unwrap().map(|k| { let (k, (v, val)) = k.into_inner(); (k, v, val) }).collect(),
+        }
     }
 
     /// Build a second signer from a copy of the store alone.
@@ -710,8 +757,50 @@ impl World {
         })
     }
 
+    /// Cloud mode: restore through a fresh CloudKVVStore over a copy of the local store.
+    pub fn restore_twin_cloud(&self) -> Out<(Arc<Node>, Arc<CloudPersister>)> {
+        let dump = self.store_dump();
+        let vf = self.vfactory.clone();
+        let clock = self.clock.clone();
+        let seed = self.cfg.seed;
+        call(move || {
+            let ms = MemoryKVVStore::new(SIGNER_ID);
+            ms.put_batch(dump.into_iter().map(|(k, v, val)| KVV(k, (v, val))).collect()).expect("copy store");
+            let cloud: Arc<CloudPersister> = Arc::new(KVVPersister(vls_persist::kvv::cloud::CloudKVVStore::new(ms), JsonFormat));
+            let services = NodeServices {
+                validator_factory: vf,
+                starting_time_factory: FixedStartingTimeFactory::new(1, 1),
+                persister: cloud.clone(),
+                clock,
+                trusted_oracle_pubkeys: vec![],
+            };
+            cloud.enter().map_err(|e| Status::internal(format!("enter: {:?}", e)))?;
+            let nodes = cloud.get_nodes().map_err(|e| Status::internal(format!("get_nodes: {:?}", e)))?;
+            if nodes.len() != 1 {
+                return Err(Status::internal(format!("{} nodes in store", nodes.len())));
+            }
+            let (node_id, entry) = nodes.into_iter().next().unwrap();
+            let node = Node::restore_node(&node_id, entry, &seed, services)?;
+            let _ = cloud.prepare();
+            cloud.commit().map_err(|e| Status::internal(format!("commit: {:?}", e)))?;
+            Ok((node, cloud))
+        })
+    }
+
     /// Restart the signer: continue on a node restored from a copy of the store.
     pub fn restart(&mut self) -> Out<()> {
+        if self.cloud.is_some() {
+            return match self.restore_twin_cloud() {
+                Out::Ok((node, cloud)) => {
+                    self.node = node;
+                    self.cloud = Some(cloud);
+                    self.restarts += 1;
+                    Out::Ok(())
+                }
+                Out::Err(e) => Out::Err(e),
+                Out::Panic(p) => Out::Panic(p),
+            };
+        }
         match self.restore_twin() {
             Out::Ok((node, store)) => {
                 self.node = node;
